@@ -48,6 +48,25 @@ Theorem C12_revocation_monotone : forall ops c i,
   Forall (fun b => b < 256) (sc_list c) -> sc_purpose c = PRevocation ->
   sl_entry c i = Ok StRevoked -> sl_entry (sl_run ops c) i = Ok StRevoked.
 Proof. exact revocation_monotone. Qed.
+(* ... and through StatusList2021Credential::update, whatever the closure does with refusals: a best-effort batch that swallows every
+   refusal, or a batch that propagates the first one (the working copy is then discarded) *)
+Theorem C12_update_revocation_monotone : forall c ops i,
+  Forall (fun b => b < 256) (sc_list c) -> sc_purpose c = PRevocation -> sl_entry c i = Ok StRevoked ->
+  sl_entry (sl_update_best_effort c ops) i = Ok StRevoked /\ sl_entry (fst (sl_update_all c ops)) i = Ok StRevoked.
+Proof. exact update_revocation_monotone. Qed.
+Theorem C12_update_all_or_nothing : forall c ops,
+  match sl_update_all c ops with
+  | (c', Ok _) => c' = sl_run ops c /\ sl_try_all ops c = Ok c'
+  | (c', Err _) => c' = c
+  | (c', Panic) => c' = c
+  end.
+Proof. exact update_all_spec. Qed.
+(* a set_entry that writes before it checks is refuted (the refusal is reported but the bit is already cleared in the working copy) *)
+Theorem C12_write_before_check_refuted : exists c i,
+  Forall (fun b => b < 256) (sc_list c) /\ sc_purpose c = PRevocation /\ sl_entry c i = Ok StRevoked
+  /\ snd (sl_set_entry_write_first c i false) = Err SlUnreversible
+  /\ sl_entry (fst (sl_set_entry_write_first c i false)) i = Ok StValid.
+Proof. exact write_first_refuted. Qed.
 Theorem C12_revocation_refused : forall c i, sc_purpose c = PRevocation ->
   sl_entry c i = Ok StRevoked -> sl_set_entry c i false = Err SlUnreversible.
 Proof. exact revocation_refused. Qed.
@@ -90,3 +109,6 @@ Print Assumptions C12_suspension_clearable.
 Print Assumptions C12_history_keeps_length_and_purpose.
 Print Assumptions C12_status_iff_set.
 Print Assumptions C12_pinned_mask_refuted.
+Print Assumptions C12_update_revocation_monotone.
+Print Assumptions C12_update_all_or_nothing.
+Print Assumptions C12_write_before_check_refuted.
